@@ -3,6 +3,7 @@ import Proofs.KeysPem
 import Proofs.KeysInst
 import Proofs.KeysInstPub
 import Proofs.KeysEcdh
+import Proofs.KeysEcdhWire
 import Props.C12
 import Props.C02
 /-!
@@ -271,5 +272,42 @@ theorem ecdh_loaders_total_model {Pt Ent : Type} (hprime : ∀ c ∈ Gen.curveTa
     LoadersAreKeys KeysWire.modelExt mkPt (ecdhEnv KeysWire.modelExt mkPt mul isInf xOf generate) ∧
       ExtOK KeysWire.modelExt :=
   ⟨ecdhEnv_loaders _ _ _ _ _ _, (all_loaders_total_model hprime).1⟩
+
+/-- **the environment the model driver runs** (`EcdhWire.env cs`, hist's `Model/EcdhWire.lean`: curve objects are indices
+into the history's list `cs`, key constructors = `Model/Keys.lean` with `KeysWire.modelExt`, DER / PEM keys located in `cs`):
+the six loaders fail only with the documented errors.  Its curve type is `Nat`, so it is not an instance of
+`LoadersAreKeys` (curve type `Keys.Curve`); the statement is proved for it directly.  Hypotheses: the table's field primes
+are prime, the history's curve objects are table rows and every table row is in the history (otherwise `locate` answers
+the driver artefact `.other`). -/
+theorem ecdh_loaders_total_driver (cs : Array EcdhWire.CParams) (hprime : ∀ c ∈ Gen.curveTable, c.p.Prime)
+    (hrows : ∀ i, i < cs.size → cs[i]! ∈ Gen.curveTable) (hcov : CoversTable cs)
+    (s : Ecdh.State Nat EcdhWire.WPt) (b : Bytes) :
+    (∀ op ∈ [Ecdh.Op.loadPrivDer b, .loadPrivPem b, .loadPubDer b, .loadPubPem b],
+      ∀ e, (Ecdh.step (EcdhWire.env cs) s op).2 = .error e → EcdhDocumented e) ∧
+    (∀ c, s.curve = some c → ∀ e, (Ecdh.step (EcdhWire.env cs) s (.loadPrivBytes b)).2 = .error e → EcdhDocumented e) ∧
+    (∀ c, s.curve = some c → c < cs.size →
+      ∀ e, (Ecdh.step (EcdhWire.env cs) s (.loadPubBytes b)).2 = .error e → EcdhDocumented e) ∧
+    (s.curve = none → (Ecdh.step (EcdhWire.env cs) s (.loadPrivBytes b)).2 = .error .noCurve) := by
+  refine ⟨?_, ?_, ?_, ?_⟩
+  · intro op hop e h
+    obtain ⟨h1, h2, h3, h4, _, _⟩ := ecdh_driver_loaders_err cs hprime hrows hcov s b e
+    simp only [List.mem_cons, List.not_mem_nil, or_false] at hop
+    rcases hop with rfl | rfl | rfl | rfl
+    · exact h1 h
+    · exact h2 h
+    · exact h3 h
+    · exact h4 h
+  · intro c hc e h
+    exact ((ecdh_driver_loaders_err cs hprime hrows hcov s b e).2.2.2.2.1 c hc).1 h
+  · intro c hc hlt e h
+    exact ((ecdh_driver_loaders_err cs hprime hrows hcov s b e).2.2.2.2.1 c hc).2 hlt h
+  · exact (ecdh_driver_loaders_err cs hprime hrows hcov s b .other).2.2.2.2.2
+
+/-- non-vacuity: the history consisting of the whole generated table satisfies the two structural hypotheses -/
+example : (∀ i, i < Gen.curveTable.toArray.size → Gen.curveTable.toArray[i]! ∈ Gen.curveTable) ∧
+    CoversTable Gen.curveTable.toArray := by
+  constructor
+  · decide +kernel
+  · unfold CoversTable; decide +kernel
 
 end C10
